@@ -173,6 +173,9 @@ def queries():
     qs.append(Q("ecgate-all_m15-dispatch", "C11_alldisp.c", units=["src/ec/ec_all_m15.c"], unwind=8,
                 desc="br_ec_all_m15: every method forwards unchanged to p256_m15 (id 23) / c25519_m15 (id 29) / prime_i15 (any other int id) and returns its result"))
 
+    qs.append(Q("p256_m15-reduce_final", "C11_f256final.c", units=["src/ec/ec_secp256r1.c", "src/codec/ccopy.c"], unwind=82, timeout=240,
+                desc="ec_p256_m15.c reduce_final_f256, every 20x13-bit input below 2p: returns (d >= p), result == d - ret*p, canonical, all limbs zero iff d == 0 mod p (the zero test of api_muladd relies on it)"))
+
     # ---- 4. keygen / compute_pub ----
     ku = ["src/ec/ec_keygen.c", "src/ec/ec_pubkey.c", "src/ec/ec_curve25519.c"] + CURVE_UNITS
     for (cv, kiter, kn, sn, tier) in ((1, 2, 0, 0, "quick"), (23, 2, 0, 0, "quick"), (24, 2, 0, 0, "quick"), (25, 2, 0, 0, "quick"), (29, 2, 0, 0, "quick"),
